@@ -220,7 +220,11 @@ func (c *Collection) chunks() int {
 	}
 
 	max, _ := c.fill.Max()
-	return int(commit.ChunkAt(max) + 1)
+	chunks := int(commit.ChunkAt(max) + 1)
+	if chunks > len(c.commits) {
+		chunks = len(c.commits) // a chunk that was never committed only holds reservations of in-flight inserts
+	}
+	return chunks
 }
 
 // readChunk acquires appropriate locks for a chunk and executes a read callback.
